@@ -892,7 +892,7 @@ MANIFEST = {
             "directions and reset() re-creates the tree before applying it (so every default is restored), every property owns its backing field and "
             "validates before storing, the style-dict plumbing of constructors/setters/update/set_children_styles/get_style neither mutates nor captures "
             "caller-owned dicts, and get_style applies object copy < show kwargs with defaults only filling unset leaves (family over base). "
-            "Per-leaf values and full notation equivalence are not decided. Also decided: nothing on the resolution path is memoised, the temporary style is removed on all exits, names are validated exactly, None-filters are not truthiness filters, recursion forwards the show keywords, the style setter adopts no foreign instance, style constructors preset no values (3 known findings). Round 3: the notation helpers do not modify the dictionaries they are given (G4, one defect repaired), generic families are listed before specific ones (G12), the lazy constructor style arguments are not bypassed (G13), style copies are deep (G14). Rounds 4-5: show() flattens every style keyword (G15), value tables are collections (G16), rejected constructor style arguments stay pending (G13b), DisplayContext.reset forgets everything (G17), sequence-valued leaves store a copy (G18), name matching is switched off only at triaged sites (G19); G4 uses dict-typed origins.",
+            "Per-leaf values and full notation equivalence are not decided. Also decided: nothing on the resolution path is memoised, the temporary style is removed on all exits, names are validated exactly, None-filters are not truthiness filters, recursion forwards the show keywords, the style setter adopts no foreign instance, style constructors preset no values (3 known findings). Round 3: the notation helpers do not modify the dictionaries they are given (G4, one defect repaired), generic families are listed before specific ones (G12), the lazy constructor style arguments are not bypassed (G13), style copies are deep (G14). Rounds 4-5: show() flattens every style keyword (G15), value tables are collections (G16), rejected constructor style arguments stay pending (G13b), DisplayContext.reset forgets everything (G17), sequence-valued leaves store a copy (G18), name matching is switched off only at triaged sites (G19); G4 uses dict-typed origins. Rounds 6-7: style constructors forward every named parameter (G20), the child's own style update is reached on every path of set_children_styles (G21), no default argument reads the live defaults tree (G22), value patterns are matched exactly (G23), announced ranges are tested (G24).",
     "design_ref": "DESIGN.md §3 C20",
     "note": "Trusted: python ast; ORIGIN interpreter with its copy/view table; two triaged setters without inline validation.",
     "technique": "static analysis: table cross-check over the property tree, structural property lint, alias/escape analysis, def-use taint on get_style",
